@@ -728,3 +728,16 @@ def l8(ctx):
 
 
 RULES.append(l8)
+
+
+@rule("L9", doc="`$name` / `?name` read back as printed: the tokenizer removes exactly the one sigil character in front of a slot or variable name (`$` and `?` are identifier characters after the first position, and Display prints the name verbatim behind one sigil) — C17.O7 sigil-dropped-exactly-once", once=True)
+def l9(ctx):
+    from . import c17
+    crate = ctx.lib("default")
+    tk = [b for b in crate.free_fn("tokenize") if (b.file or "").endswith("parse.rs")]
+    if len(tk) != 1:
+        raise mir.AnchorMissing("parse::tokenize")
+    c17.sigil_dropped_once(ctx, mir.inline_view(crate, tk[0], keep=("named", "crop_ident")))
+
+
+RULES.append(l9)
